@@ -142,6 +142,98 @@ func WithCB(w *load.World, ls *lockset.Result, c *core.Collector) {
 	for si, site := range sites {
 		withCBSite(w, ls, c, f, site.cb, site.elem, fmt.Sprintf("#%d", si+1), props)
 	}
+	// an element that is put into the manager's table is locked by the transaction that puts it there
+	// before the manager lock is released: whoever finds it afterwards has to queue behind that lock
+	// (an element published unlocked is handed to the next reader while its publisher still writes it)
+	nPub := 0
+	for _, b := range f.Blocks {
+		for _, in := range b.Instrs {
+			mu, ok := in.(*ssa.MapUpdate)
+			if !ok || ssax.IsNilConst(mu.Value) {
+				continue
+			}
+			if p, _ := ssax.Path(mu.Map); !strings.Contains(p, "sharedCaches") {
+				continue
+			}
+			nPub++
+			v := wcCanon(mu.Value)
+			isLockOfV := func(x ssa.Instruction) bool {
+				call, ok := x.(*ssa.Call)
+				if !ok {
+					return false
+				}
+				kind, l, isOp := lockset.AsLockOp(call.Common())
+				if !isOp || l.Class != elemLock || (kind != "Lock" && kind != "RLock") {
+					return false
+				}
+				fa, ok := call.Call.Args[0].(*ssa.FieldAddr)
+				if !ok {
+					return false
+				}
+				x0 := wcCanon(fa.X)
+				if x0 == v {
+					return true
+				}
+				// the published value may be a phi one of whose inputs is the locked element
+				if phi, ok := v.(*ssa.Phi); ok {
+					for _, e := range phi.Edges {
+						if wcCanon(e) == x0 {
+							return true
+						}
+					}
+				}
+				return false
+			}
+			isMgrUnlock := func(x ssa.Instruction) bool {
+				call, ok := x.(*ssa.Call)
+				if !ok {
+					return false
+				}
+				kind, l, isOp := lockset.AsLockOp(call.Common())
+				return isOp && kind == "Unlock" && l.Class == "cache.Manager.mu"
+			}
+			locked := false
+			for _, lb := range f.Blocks {
+				for _, li := range lb.Instrs {
+					if isLockOfV(li) && ssax.Precedes(li, in) {
+						locked = true
+					}
+				}
+			}
+			if !locked {
+				// from the publication, is the manager's Unlock reachable without locking the element?
+				seen := map[*ssa.BasicBlock]bool{}
+				var dfs func(x *ssa.BasicBlock, from int) bool
+				dfs = func(x *ssa.BasicBlock, from int) bool {
+					for i := from; i < len(x.Instrs); i++ {
+						if isLockOfV(x.Instrs[i]) {
+							return false
+						}
+						if isMgrUnlock(x.Instrs[i]) {
+							return true
+						}
+					}
+					if seen[x] {
+						return false
+					}
+					seen[x] = true
+					for _, sc := range x.Succs {
+						if dfs(sc, 0) {
+							return true
+						}
+					}
+					return false
+				}
+				locked = !dfs(b, ssax.InstrIndex(in)+1)
+			}
+			key := fmt.Sprintf("published-locked#%d", nPub)
+			if locked {
+				c.Add("WITHCB", key, core.OK, w.At(in), "", props...)
+			} else {
+				c.Add("WITHCB", key, core.Violation, w.At(in), "an element is put into the manager's table and the manager lock is released without the element's own lock having been taken by this transaction: the next transaction that looks the name up gets it at once, while the one that published it is still writing to it", props...)
+			}
+		}
+	}
 }
 
 func withCBSite(w *load.World, ls *lockset.Result, c *core.Collector, f *ssa.Function, cb *ssa.Call, elem ssa.Value, sfx string, props []string) {
